@@ -133,6 +133,13 @@ def streams(rng, tier, ctx):
                 sim.run(30, 1_000_000_000, {"c2s": Net(loss=1000), "s2c": Net(loss=1000)}, None)
             cid = "t%d" % i
             cases.append((cid, sim.ops)); meta[cid] = sim
+        # the two open known findings, each by a scenario with a fixed seed (independent of VERIF_SEED): every run shows whether
+        # they are still there; they go through the same correspondence and the same oracle as every other case
+        from checkflow import SplitMix
+        for (name, fam, sd) in (("kfF9", handshake_delay_scenario, 0xF900 + 2), ("kfF21", idle_scenario, 0xF2100 + 36)):
+            it.op("=== " + name)
+            sim = fam(SplitMix(sd), it, tier)
+            cases.append((name, sim.ops)); meta[name] = sim
     finally:
         it.close()
     return [{"name": "timeouts", "mode": "ep", "cases": cases, "meta": meta, "case_timeout": 120}]
